@@ -56,87 +56,67 @@ Proof.
   destruct (forallb is_tchar (c :: r)); [apply canon_go_nonempty|discriminate].
 Qed.
 
-(* ---------- header lines: BFE's reader and the RFC reader agree on lines whose name is a token ---------- *)
-Lemma field_refine l : nontoken_key l = false -> bfe_field l = ref_field l.
+(* ---------- header lines ---------- *)
+Lemma canon_key_token k : is_token (canon_key k) = true -> is_token k = true.
 Proof.
-  unfold nontoken_key, bfe_field, ref_field. destruct (line_key l) as [k|]; [|reflexivity].
-  intro H. apply negb_false_iff in H. rewrite H.
-  pose proof (token_canon_nonempty _ H) as Hne. destruct (canon_key k); [congruence|reflexivity].
+  destruct k as [|c r]; [intro H; exact H|].
+  unfold canon_key. destruct (forallb is_tchar (c :: r)) eqn:E; [|auto]. intros _. exact E.
 Qed.
-Lemma collect_refine ls : existsb nontoken_key ls = false ->
-  collect_fields bfe_field ls = collect_fields ref_field ls.
+(* a line that BFE's reader keeps as a field with a token name is the same field for the RFC reader;
+   lines it skips are the empty-name lines *)
+Lemma collect_refine : forall ls fs,
+  existsb emptyname_line ls = false -> collect_fields bfe_field ls = Some fs -> names_ok fs = true ->
+  collect_fields ref_field ls = Some fs.
 Proof.
-  induction ls as [|l ls IH]; simpl; [reflexivity|]. intro H. apply orb_false_iff in H. destruct H as [H1 H2].
-  rewrite (field_refine _ H1), (IH H2). reflexivity.
+  induction ls as [|l ls IH]; intros fs He Hc Hn; [exact Hc|].
+  cbn [existsb] in He. apply orb_false_iff in He. destruct He as [He1 He2].
+  cbn [collect_fields] in *. unfold bfe_field in Hc at 1. unfold ref_field at 1. unfold emptyname_line in He1.
+  destruct (line_key l) as [k|]; [|discriminate].
+  destruct (canon_key k) as [|z0 l0] eqn:Ek.
+  - (* skipped by BFE: only possible for an empty name *)
+    exfalso. destruct k as [|c r]; [discriminate|].
+    unfold canon_key in Ek. destruct (forallb is_tchar (c :: r)); discriminate.
+  - destruct (collect_fields bfe_field ls) as [fs'|] eqn:E'; [|discriminate]. inversion Hc; subst fs.
+    unfold names_ok in Hn. cbn [forallb fst] in Hn. apply andb_true_iff in Hn. destruct Hn as [Hn1 Hn2].
+    rewrite <- Ek in Hn1. rewrite (canon_key_token _ Hn1).
+    rewrite (IH fs' He2 eq_refl Hn2). reflexivity.
 Qed.
 
 (* ---------- framing decision ---------- *)
-Lemma te_single_chunked h :
-  has_key s_te h = true ->
-  (match te_tokens h with [t] => bytes_eqb t s_chunked | _ => false end) = true ->
-  bfe_te h = Some true.
-Proof.
-  intros Hk Ht. unfold bfe_te. unfold te_tokens in Ht.
-  pose proof (get_all_has_key _ _ Hk) as Hne.
-  destruct (get_all s_te h) as [|raw0 rest]; [congruence|].
-  simpl in Ht. pose proof (split_byte_nonempty 44 raw0) as Hs.
-  destruct (split_byte 44 raw0) as [|a l]; [congruence|].
-  simpl in Ht.
-  destruct (map (fun e => to_lower (go_trim e)) (l ++ concat (map (split_byte 44) rest))) eqn:Em; [|discriminate].
-  destruct l as [|b l]; [|simpl in Em; discriminate].
-  simpl. apply bytes_eqb_eq in Ht. rewrite Ht. reflexivity.
-Qed.
-
 Lemma parse_cl_dec cl n : parse_cl cl = Some n -> parse_dec cl = Some n.
 Proof. unfold parse_cl. destruct (parse_dec cl); [|discriminate]. destruct (z <? 2^63); congruence. Qed.
 
-Lemma frame_refine h fr :
-  bfe_frame h = inr fr -> te_div h = false -> (negb (has_key s_te h) && empty_cl h) = false ->
-  ref_frame h = inr fr.
+(* BFE's framing decision refines the reference's on every header block (no guard needed any more) *)
+Lemma frame_refine h fr : bfe_frame h = inr fr -> ref_frame h = inr fr.
 Proof.
-  unfold bfe_frame, ref_frame, te_div, empty_cl. intros Hb Hd He.
-  destruct (has_key s_te h) eqn:Hk.
-  - (* Transfer-Encoding present *)
-    destruct (bfe_te h) as [c|] eqn:Et; [|discriminate].
-    simpl in Hd. rewrite andb_true_r in Hd. apply negb_false_iff in Hd.
-    rewrite (te_single_chunked _ Hk Hd) in Et. inversion Et; subst c.
-    destruct (bfe_trailer_ok h); [|discriminate]. inversion Hb; subst.
-    destruct (te_tokens h) as [|t [|t2 l]]; try discriminate. rewrite Hd. reflexivity.
-  - unfold bfe_te in Hb. rewrite (has_key_get_all _ _ Hk) in Hb. simpl in He.
-    destruct (get_all s_cl h) as [|f r] eqn:Ecl.
-    + simpl in Hb. destruct (bfe_trailer_ok h); [|discriminate]. exact Hb.
-    + assert (Hh : has_key s_cl h = true).
-      { destruct (has_key s_cl h) eqn:E; [reflexivity|]. rewrite (has_key_get_all _ _ E) in Ecl. discriminate. }
-      rewrite Hh in He. cbn [negb andb] in He.
-      destruct (cl_consistent (f :: r)); [|discriminate].
-      destruct (cl_first (f :: r)) as [|c0 cl] eqn:Ef; [discriminate|].
-      destruct (parse_cl (c0 :: cl)) as [n|] eqn:Ep; [|discriminate].
-      rewrite (parse_cl_dec _ _ Ep).
-      destruct (bfe_trailer_ok h); [|discriminate]. exact Hb.
+  unfold bfe_frame, ref_frame. destruct (te_decision h) as [[|]|]; [| |discriminate].
+  - destruct (bfe_trailer_ok h); [auto|discriminate].
+  - destruct (get_all s_cl h) as [|f r].
+    + destruct (bfe_trailer_ok h); [auto|discriminate].
+    + destruct (cl_consistent (f :: r)); [|discriminate].
+      destruct (parse_cl (cl_first (f :: r))) as [n|] eqn:Ep; [|discriminate].
+      rewrite (parse_cl_dec _ _ Ep). destruct (bfe_trailer_ok h); [auto|discriminate].
 Qed.
 
 (* ---------- one request head ---------- *)
 Lemma head_refine hd m : head_class hd = 0 -> validate V_bfe hd = inr m -> validate V_ref hd = inr m.
 Proof.
-  unfold head_class, validate. simpl.
+  unfold head_class, validate, lax_version. simpl.
   destruct (parse_request_line (h_reqline hd)) as [[[me t] p]|]; [|discriminate].
-  destruct (negb (is_token me) || (bfe_version_ok p && negb (ref_version_ok p))) eqn:E5; [discriminate|].
-  apply orb_false_iff in E5. destruct E5 as [Em Ev]. apply negb_false_iff in Em. rewrite Em. simpl.
+  destruct (is_token me); simpl; [|discriminate].
   destruct (bfe_version_ok p) eqn:Ebv; simpl; [|discriminate].
-  simpl in Ev. apply negb_false_iff in Ev. rewrite Ev. simpl.
-  destruct (h_leadws hd) eqn:El; [discriminate|].
-  destruct (existsb ws_before_colon (h_lines hd)); [discriminate|].
-  destruct (existsb nontoken_key (h_lines hd)) eqn:En; [discriminate|].
-  rewrite <- (collect_refine _ En).
+  destruct (ref_version_ok p) eqn:Erv; simpl; [|discriminate].
+  destruct (existsb emptyname_line (h_lines hd)) eqn:En; [discriminate|].
   destruct (target_class me t =? 0); [intros _ H; exact H|].
   destruct (target_class me t =? 3); [intros _ H; exact H|].
-  destruct (collect_fields bfe_field (h_lines hd)) as [fs|]; [|intros _ H; exact H].
-  destruct (te_div fs) eqn:Ed; [discriminate|].
-  destruct (negb (has_key s_te fs) && empty_cl fs) eqn:Ee; [discriminate|].
+  destruct (h_leadws hd); [intros _ H; exact H|].
+  destruct (collect_fields bfe_field (h_lines hd)) as [fs|] eqn:Ec; [|discriminate].
   intros _ H.
-  destruct (h_complete hd); simpl in *; [|exact H].
+  destruct (h_complete hd); simpl in *; [|discriminate].
+  destruct (names_ok fs) eqn:Hn; simpl in *; [|discriminate].
+  rewrite (collect_refine _ _ En Ec Hn). simpl.
   destruct (bfe_frame fs) as [c|fr] eqn:Ef; [discriminate|].
-  rewrite (frame_refine _ _ Ef Ed Ee). exact H.
+  rewrite (frame_refine _ _ Ef). exact H.
 Qed.
 
 (* ---------- the stream ---------- *)
@@ -197,10 +177,7 @@ Proof.
   match goal with |- plain_fields (match get_first s_trailer ?h4 with _ => _ end) = _ =>
     assert (E4 : plain_fields h4 = plain_fields h) end.
   { destruct fr as [n|].
-    - set (h' := match get_all s_cl h3 with _ :: _ :: _ => dedupe_cl (trim4 (hd [] (get_all s_cl h3))) false h3 | _ => h3 end).
-      assert (E' : plain_fields h' = plain_fields h).
-      { unfold h'. destruct (get_all s_cl h3) as [|a [|b l]]; try exact E3. rewrite plain_dedupe. exact E3. }
-      destruct (cl_first (get_all s_cl h3)); [rewrite plain_del; [exact E'|reflexivity]|exact E'].
+    - destruct (get_all s_cl h3) as [|a [|b l]]; try exact E3. rewrite plain_dedupe. exact E3.
     - rewrite plain_del; [exact E3|reflexivity]. }
   match goal with |- plain_fields (match ?x with _ => _ end) = _ => destruct x end;
     [exact E4|rewrite plain_del; [exact E4|reflexivity]].
@@ -260,11 +237,18 @@ Definition w_version : bytes := [71;69;84;32;47;32;72;84;84;80;47;43;49;46;49;13
 (* "POST / HTTP/1.1\r\nContent-Length: \r\n\r\n" *)
 Definition w_emptycl : bytes := [80;79;83;84;32;47;32;72;84;84;80;47;49;46;49;13;10] ++ s_cl ++ [58;32;13;10;13;10].
 
+(* "GET / HTTP/1.1\r\n: v\r\n\r\n" *)
+Definition w_emptyname : bytes := [71;69;84;32;47;32;72;84;84;80;47;49;46;49;13;10;58;32;118;13;10;13;10].
 Definition refuted (s : bytes) (k : Z) : Prop :=
   wf_bytes s = true /\ kf_C24 (VB s) = k /\ prop_C24 (VB s) (run_C24 (VB s)) = false.
-Lemma C24_refuted_lemma :
-  refuted w_wscolon 1 /\ refuted w_nontoken 2 /\ refuted w_te 3 /\ refuted w_leadws 4 /\
-  refuted w_version 5 /\ refuted w_emptycl 6.
+Lemma C24_refuted_lemma : refuted w_emptyname 2 /\ refuted w_version 5.
+Proof. repeat split; vm_compute; reflexivity. Qed.
+
+(* the repaired defects: the former witnesses are rejected (no request accepted) with these codes *)
+Definition rejected (s : bytes) (code : Z) : Prop :=
+  kf_C24 (VB s) = 0 /\ bfe_run s = ([], code).
+Lemma C24_fixed_lemma :
+  rejected w_wscolon 12 /\ rejected w_nontoken 12 /\ rejected w_te 7 /\ rejected w_leadws 6 /\ rejected w_emptycl 8.
 Proof. repeat split; vm_compute; reflexivity. Qed.
 
 (* non-vacuity: a pipelined stream (chunked POST with trailer, then GET) outside all classes, two requests accepted *)
@@ -283,5 +267,34 @@ Lemma C24_cl_conflict_rejected_lemma : forall h a b r,
   has_key s_te h = false -> get_all s_cl h = a :: b :: r -> bytes_eqb (trim4 a) (trim4 b) = false ->
   bfe_frame h = inl 8.
 Proof.
-  intros h a b r Ht Hc Hne. unfold bfe_frame, bfe_te. rewrite (has_key_get_all _ _ Ht), Hc. simpl. rewrite Hne. reflexivity.
+  intros h a b r Ht Hc Hne. unfold bfe_frame, te_decision. rewrite (has_key_get_all _ _ Ht), Hc. simpl. rewrite Hne. reflexivity.
+Qed.
+
+(* what every accepted request head satisfies after the repairs *)
+Lemma C24_accepted_wellformed_lemma : forall hd m, validate V_bfe hd = inr m ->
+  is_token (r_method m) = true /\ h_leadws hd = false /\ names_ok (r_fields m) = true /\
+  te_decision (r_fields m) <> None /\
+  (get_all s_cl (r_fields m) <> [] -> r_framing m = FrChunked \/
+     exists n, parse_dec (cl_first (get_all s_cl (r_fields m))) = Some n /\ r_framing m = FrLen n).
+Proof.
+  intros hd m. unfold validate. simpl.
+  destruct (parse_request_line (h_reqline hd)) as [[[me t] p]|]; [|discriminate].
+  destruct (is_token me) eqn:Em; simpl; [|discriminate].
+  destruct (bfe_version_ok p); simpl; [|discriminate].
+  destruct (target_class me t =? 0); [discriminate|]. destruct (target_class me t =? 3); [discriminate|].
+  destruct (h_leadws hd); [discriminate|].
+  destruct (collect_fields bfe_field (h_lines hd)) as [fs|]; [|discriminate].
+  destruct (h_complete hd); simpl; [|discriminate].
+  destruct (names_ok fs) eqn:En; simpl; [|discriminate].
+  destruct (bfe_frame fs) as [c|fr] eqn:Ef; [discriminate|].
+  intro H. inversion H; subst m. cbn [r_method r_fields r_framing].
+  repeat split; try assumption.
+  - unfold bfe_frame in Ef. destruct (te_decision fs); [discriminate|discriminate].
+  - intro Hcl. unfold bfe_frame in Ef. destruct (te_decision fs) as [[|]|]; [| |discriminate].
+    + destruct (bfe_trailer_ok fs); [|discriminate]. inversion Ef. left. reflexivity.
+    + destruct (get_all s_cl fs) as [|f r]; [congruence|].
+      destruct (cl_consistent (f :: r)); [|discriminate].
+      destruct (parse_cl (cl_first (f :: r))) as [n|] eqn:Ep; [|discriminate].
+      destruct (bfe_trailer_ok fs); [|discriminate]. inversion Ef. right. exists n.
+      split; [apply parse_cl_dec; exact Ep|reflexivity].
 Qed.
